@@ -4,8 +4,8 @@ i = s.index('### 12.5 Which check catches which seeded change')
 table = open('/tmp/seedtable.md').read()
 new = '''### 12.5 Which check catches which seeded change
 
-280 changes were written by sub-agents that saw only the text of one property and their own scratch worktree: two per property in each of seven rounds
-(A, B; C, D; E, F; G, H; I, J; K, L; M, N). From the second round on the agents were additionally told one line about each earlier change for their property so as not to repeat it; in the fourth round the two
+320 changes were written by sub-agents that saw only the text of one property and their own scratch worktree: two per property in each of eight rounds
+(A, B; C, D; E, F; G, H; I, J; K, L; M, N; O, P). From the second round on the agents were additionally told one line about each earlier change for their property so as not to repeat it; in the fourth round the two
 changes had prescribed styles: G a concurrency or resource-lifetime slip (a lock moved, a goroutine added, pooling or caching, a timer, a finalizer, a deferred clean-up in the wrong place),
 H a slip in glue or wiring (the main program's flags and the way it builds its components, a constructor's defaults, a small helper, a library option, an error translated on its way up).
 In the fifth round: I a slip on an error path or at a boundary (something failing half-way, the first / last / empty / maximal element, two things ending at the same moment),
@@ -14,9 +14,12 @@ In the sixth round: K a slip that rests on a Go language or standard-library pit
 L a small feature addition (a flag, an option, an endpoint, an exported function) that is off by default.
 In the seventh round: M a change whose misbehaviour depends on the *environment* the program runs in (TERM, NO_COLOR, the locale, the current directory, the number of processors, which interfaces carry addresses, whether the host has IPv6,
 a system clock that is set, symbolic links, a directory that takes no files), N a behaviour-preserving-looking *refactor* that moves or reorders something (a check moved past an unlock or above another check, a block moved below the point where the terminal is raw, a loop replaced by `io.Copy`, an errgroup by a `WaitGroup`, helpers extracted that each take the lock themselves).
-The checks as they stood missed about a third of the changes of the early rounds at first sight (11 of 38 in round three) and about half of rounds four and five (22 of 42, 21 of 40): prescribing a *style* the checks had not met yet is what kept finding blind spots. Every miss led to the strengthening listed below; with the machinery as committed every one of the 280 is reported except six of the sixth round's feature additions (C02-L `-takeover`, C03-L `-max-output-chunk`, C05-L an environment variable switching on per-SNI certificates,
+In the eighth round: O a *performance optimisation* a reviewer would welcome (a buffer reused, a copy avoided with `unsafe.String`, writes or notices coalesced, a value cached, a fast path, a loop made parallel, a read-write lock),
+P a *simplification / clean-up / modernisation* (code that looks redundant deleted, two near-identical paths unified, a hand-written loop replaced by a newer library helper, error handling tidied).
+The checks as they stood missed about a third of the changes of the early rounds at first sight (11 of 38 in round three) and about half of rounds four and five (22 of 42, 21 of 40): prescribing a *style* the checks had not met yet is what kept finding blind spots. Every miss led to the strengthening listed below; with the machinery as committed every one of the 320 is reported except six of the sixth round's feature additions (C02-L `-takeover`, C03-L `-max-output-chunk`, C05-L an environment variable switching on per-SNI certificates,
 C14-L `ConnectTimeout`, C16-L `-strip-comments`, C19-L `-line-buffer`): each breaks its property only when the new option is switched on, and a check built for the pinned interface has no way of knowing that an option exists, let alone what a legitimate use of it is.
 The other fourteen feature additions of that round break something with the feature *unused* and are caught. Sixth round at first sight: 19 of 40 missed or answered with a broken check (exit 2) instead of a verdict.
+Eighth round at first sight: 27 of 40 reported at once, 2 answered with a hang or exit 2 instead of a verdict, 11 missed.
 Seventh round at first sight: of the 20 refactors 18 were reported at once (one answered with exit 2, one missed), of the 20 environment-dependent changes 8 - the checks had, until then, run everything in the one environment they were started in.
 Each change was confirmed here
 (`tools/seedconfirm.sh`: builds, whole existing suite passes, the agent's demonstration fails with the change and passes without) and kept under
@@ -143,6 +146,25 @@ What each missed (or nearly missed) change led to:
 | C16-M (sources run through `EvalSymlinks`: the function is named after the link's target) | missed | scripts reached through links whose targets are called `tool_v2.pl`, `tool`, `tool.sh`, as single file, in a directory, through a linked directory; C17's link targets renamed likewise |
 | C17-M (converted bytes cached by name, size and mtime) / C17-N (pattern list and per-file filter looked up at different times) | caught by the row-set and (already present) kept-converter clauses; added all the same: kept-converter edit histories on real files (same length, same mtime, older mtime, contents exchanged), and `SetFilter` from another goroutine while `From` is inside the filter of file k, for every k and 8 kinds of change: the payload is that of the table before or after |
 | C19-M (`lastPlainWrite` stamped with a truncated time: wall clock instead of monotonic) | missed | `vtime.Now` carries a monotonic reading and a wall clock that `StepWall` can set; the system clock is set back / forward ten minutes at every point of every 4-event string beginning with Ctrl+O (512 strings) |
+| C01-O (`Broker.mu` becomes a read-write lock, admission checks under the read lock) | missed (the gated exploration serialises whole admission sections) | free-running complement `c01stress`: seven kinds of mutually exclusive pairs of attempts released together against an idle broker, 7 000 rounds (thorough 140 000); whatever is attached in the end belongs to one of them |
+| C01-P (the silent return during shutdown routed through the common `refuse` helper, which tells the operator) | missed | profile `c01-shutdown-stalled-terminal` (operator channel of one slot that is not read, attempts arriving after shutdown, also after `Broker.Do` has returned): such an attempt is ended at once |
+| C02-O (`ChanWriter` sends `unsafe.String` of its argument; the converter reuses its buffer) | missed | Ctrl+I twice with nobody attached, the insert source reusing its buffer in between: both queued lines are what was inserted when the key was pressed |
+| C03-O (reads coalesced in the reader goroutine, a pending tail not flushed at the end) | hang (the free-running complement waited for a chunk count that never came) | cancellation point counted in bytes; every wait of the complement bounded by the watchdog |
+| C04-P (`Shutdown` with a grace period then `Close`, `BaseContext` dropped: nothing ends the shell on the `-one-shell` path) | missed by C04 | the operator leaves (Ctrl+D, Ctrl+C) with a shell attached whose client keeps its streams open, with and without `-one-shell`: the program exits and ends the streams |
+| C05-O (fingerprint fast path with the P-256 header for every ECDSA key) / C05-P (`sortAddresses` result dropped: empty entries in the address list) | missed | caches holding P-384, P-521, Ed25519 and RSA keys; duplicate and loopback callback addresses, and every printed command names a host |
+| C06-P (the random bidirectional key becomes the constant `"/io"`) | missed | profile with unidirectional IDs `/io` and `io` (a path segment is percent-decoded) next to a bidirectional client |
+| C07-O (`ParseForm` skipped unless there is a query or a Content-Length) / C07-P (three "add the port" snippets unified, losing "unless that is 443") | missed | c2 in a chunked form body; a listener on port 443 (skipped, and said so, where the port cannot be bound) |
+| C08-P (positional access to the cache's sections) | exit 2 (the program's panic took the check down) | a panic of the program inside `GetCertificate`, `sstls.Listen` or `hsrv.New` is recovered and reported as `program-crashed/...` |
+| C09-O (notice text built in a pooled buffer and handed over with `unsafe.String`) | missed (notices were read after every response) | 240 requests of very different lengths from 4 clients while nothing is taken off the operator channel: every request has a notice of its own carrying its own path |
+| C10-P (explicit argument indexes in the notice for a refused `/io` side count from the prepended address) | missed | a `/io` client refused next to an attached `/i/<text>` or `/o/<text>`: the notice that names the expected ID carries it verbatim |
+| C11-O (queued input lines written as a batch, records after the flush) | missed | writer fault "the next write succeeds, the one after it fails" (`Profile.WFailLater`), profile `c11-write-fails-later` with lines typed ahead |
+| C12-O (`Shutdown`'s polling replaced by a one-off sweep plus a wait group) / C12-P (`new(struct{})` as the per-call marker) | missed | a TCP connection that never says anything, opened before the shell and kept to the end; three `/io` clients calling back at the same moment, 150 trials: the operator's line and the displayed output belong to one client |
+| C13-O (pin installed only if the URL begins with lower-case `https://`) / C13-P (shadowed `err`: a malformed fingerprint leaves the default transport in place) | missed | in the scenario where every server is ordinarily trusted: `HTTPS://`, `Https://`, `hTTps://`, and every malformed fingerprint |
+| C14-O (small writes held back 5 ms, large ones not) / C14-P (output pipe not closed when the command cannot be started) | missed | a short write followed 0 - 20 ms later by a long one on the same descriptor; commands that cannot be started |
+| C15-P (spaces turned into backticks over the whole destination) | missed | the destination already holds a space, a backtick, a newline and a length character |
+| C17-O (directory files converted by GOMAXPROCS workers, the remainder dropped) | missed (the 400-file scenario happened to be a multiple of 16) | directories of 1 .. 70 eligible files with 16, 3 and 1 processors |
+| C18-O (quote-escaping split over 4 workers from 64 rows up, the last rows skipped) | missed | listings of every size from 1 to 140 rows with a quote-breaker and a hidden command in every row |
+| C20-O (cached certificate parsed by hand: the key is no longer checked against the certificate) | missed | start-up fault `cache-spliced` (certificate of one good cache, key of another) |
 | C11-M (`-log` opened lazily, the error swallowed by slog) | caught by C20 only at first | C11: `-log` naming a file that cannot be opened - the program may refuse to start, but if it serves, what it delivers must be in a log that exists |
 
 **C12-D** moves the registration of the server's event listener into the watcher goroutine, after HTTP is being served; it needs the broker to be busy delivering an earlier event to
